@@ -250,3 +250,71 @@ func ForkPoint(a, b *Node) *Node {
 	}
 	return a
 }
+
+// ---------------------------------------------------------------------------------------------
+// Reference difficulty adjustment (the network's 144 block algorithm, written from its published
+// description): median-of-three endpoints chosen with the network's compare-and-swap order, signed
+// time span clamped to [72,288] blocks' worth, projected work = work*600/span, target =
+// (2^256 - work)/work, capped at the proof-of-work limit, re-encoded as compact bits.
+
+var PowLimit, _ = CompactToTarget(0x1d00ffff)
+
+// suitable picks the median by timestamp of n, its parent and grandparent exactly as the network does.
+func suitable(n *Node) *Node {
+	b := [3]*Node{n.Parent.Parent, n.Parent, n}
+	if b[0].Header.Timestamp > b[2].Header.Timestamp {
+		b[0], b[2] = b[2], b[0]
+	}
+	if b[0].Header.Timestamp > b[1].Header.Timestamp {
+		b[0], b[1] = b[1], b[0]
+	}
+	if b[1].Header.Timestamp > b[2].Header.Timestamp {
+		b[1], b[2] = b[2], b[1]
+	}
+	return b[1]
+}
+
+// RequiredBits is the bits value the network requires for the child of prev. ok is false when fewer
+// than 147 ancestors are available.
+func RequiredBits(prev *Node) (uint32, bool) {
+	first := prev
+	for i := 0; i < 144; i++ {
+		if first == nil {
+			return 0, false
+		}
+		first = first.Parent
+	}
+	if first == nil || first.Parent == nil || first.Parent.Parent == nil {
+		return 0, false
+	}
+	last := suitable(prev)
+	start := suitable(first)
+	work := new(big.Int).Sub(last.Work, start.Work)
+	work.Mul(work, big.NewInt(600))
+	span := int64(last.Header.Timestamp) - int64(start.Header.Timestamp)
+	if span > 288*600 {
+		span = 288 * 600
+	}
+	if span < 72*600 {
+		span = 72 * 600
+	}
+	work.Div(work, big.NewInt(span))
+	if work.Sign() <= 0 {
+		return TargetToCompact(PowLimit), true
+	}
+	target := new(big.Int).Sub(two256, work)
+	target.Div(target, work)
+	if target.Cmp(PowLimit) > 0 {
+		target.Set(PowLimit)
+	}
+	return TargetToCompact(target), true
+}
+
+// HashMeetsTarget: the header hash, as a little endian number, does not exceed the target.
+func HashMeetsTarget(h Hash, target *big.Int) bool {
+	var be [32]byte
+	for i := range h {
+		be[31-i] = h[i]
+	}
+	return new(big.Int).SetBytes(be[:]).Cmp(target) <= 0
+}
